@@ -101,6 +101,41 @@ def opPredictColls : List V → Option V
       some (ofCollsRes (predictColls c dfs thr colls))
   | _ => none
 
+/-- `rescale <a> <b> [[score target] ...]` → the rows with every score replaced by `a·s + b`
+(`rescaleRows`, the transformation of `C11_calib_rescale_invariant`) -/
+def opRescale : List V → Option V
+  | [a, b, xs] => do
+      let a ← toRat? a
+      let b ← toRat? b
+      let xs ← calRows? xs
+      some (ofList (fun x => list [ofRat x.1, ofBool x.2]) (rescaleRows a b xs))
+  | _ => none
+
+/-- scale / offset of fold `f` from the list of pairs (identity beyond its end) -/
+def scaleA (sc : List (Rat × Rat)) (f : Nat) : Rat := (sc.getD f (1, 0)).1
+def scaleB (sc : List (Rat × Rat)) (f : Nat) : Rat := (sc.getD f (1, 0)).2
+
+/-- `predictresc <chunk> [flags] <thr> [[a b] per fold] [[fold raw target] ...]` → model of
+`_predict` on the rows with every fold model's output re-scaled by its own `(a, b)`
+(`rescaleFolds`, the transformation of `C11_gate_rescale_invariant`) -/
+def opPredictResc : List V → Option V
+  | [c, dfs, t, sc, rows] => do
+      let c ← toNat? c
+      let dfs ← toList? toBool? dfs
+      let thr ← toRat? t
+      let sc ← toList? (toPair? toRat? toRat?) sc
+      let rows ← toList? toFRow? rows
+      some (ofCalRes (predictFoldsDF c dfs thr (rescaleFolds (scaleA sc) (scaleB sc) rows)))
+  | _ => none
+
+/-- `gateflags [[fold-attribute has-decision_function] ...]` → the flags `_predict` sees fold by fold
+after `fitted.sort(key=fold)` (brew.py:194-195) -/
+def opGateFlags : List V → Option V
+  | [ms] => do
+      let ms ← toList? (toPair? toNat? toBool?) ms
+      some (ofList ofBool (gateFlags ms))
+  | _ => none
+
 end Mk.Ops.Calibrate
 
 namespace Mk.Ops
@@ -108,6 +143,7 @@ open Mk V Mk.Ops.Calibrate
 
 def calibrateOps : List (String × (List V → Option V)) :=
   [("calib", opCalib), ("calspec", opCalSpec), ("predict", opPredict), ("predspec", opPredSpec),
-   ("median", opMedian), ("predictdf", opPredictDF), ("predictcolls", opPredictColls)]
+   ("median", opMedian), ("predictdf", opPredictDF), ("predictcolls", opPredictColls),
+   ("rescale", opRescale), ("predictresc", opPredictResc), ("gateflags", opGateFlags)]
 
 end Mk.Ops
